@@ -114,9 +114,10 @@ func (c cfgSto) Config() *blobserver.Config { return c.cfg }
 
 func c02Backends(c *ctx, tmp string) []*cfgNode {
 	mem := func() *cfgNode { return &cfgNode{Kind: "leaf", Leaf: "memory"} }
+	disk := func() *cfgNode { return &cfgNode{Kind: "leaf", Leaf: "localdisk"} }
 	roots := []*cfgNode{
 		mem(),
-		{Kind: "leaf", Leaf: "localdisk"},
+		disk(),
 		{Kind: "leaf", Leaf: "diskpacked", Detail: "600,leveldb"},
 		{Kind: "leaf", Leaf: "blobpacked", Detail: "memory"},
 		{Kind: "leaf", Leaf: "encrypt", Detail: "memory"},
@@ -126,6 +127,14 @@ func c02Backends(c *ctx, tmp string) []*cfgNode {
 		{Kind: "namespace", Detail: "memory", Kids: []*cfgNode{mem()}},
 		{Kind: "proxycache", Kids: []*cfgNode{{Kind: "leaf", Leaf: "memory", isCache: true}, mem()}},
 		{Kind: "overlay", HasDel: true, Detail: "memory", Kids: []*cfgNode{mem(), mem()}},
+		// the same wrappers over leaves that do not hash what they are handed (memory does, and hides a wrapper that
+		// forwards unverified bytes)
+		{Kind: "cond", Kids: []*cfgNode{disk(), disk()}},
+		{Kind: "replica", Kids: []*cfgNode{disk(), disk()}},
+		{Kind: "shard", Kids: []*cfgNode{disk(), disk()}},
+		{Kind: "namespace", Detail: "memory", Kids: []*cfgNode{disk()}},
+		{Kind: "proxycache", Kids: []*cfgNode{{Kind: "leaf", Leaf: "memory", isCache: true}, disk()}},
+		{Kind: "overlay", HasDel: true, Detail: "memory", Kids: []*cfgNode{mem(), disk()}},
 	}
 	var out []*cfgNode
 	for i, r := range roots {
